@@ -144,9 +144,27 @@ def check_path(segs):
     return None
 
 
+def check_after_edit(pts):
+    """the box is a function of the segment as it is NOW: ask for it, move a control point in place (the Point objects are mutable and the
+    library mutates them itself, e.g. Point.rotate), ask again — the answer must be that of a fresh segment with the new control points"""
+    seg = oc.mkseg(pts)
+    seg.bounds()
+    j = len(pts) // 2
+    dx = oc.extent(pts) * 0.75 + 1.0
+    seg[j].x = seg[j].x + dx
+    seg[-1].y = seg[-1].y - dx
+    new = [(p.x, p.y) for p in seg.points]
+    a, b = seg.bounds(), oc.mkseg(new).bounds()
+    if (a.left, a.bottom, a.right, a.top) != (b.left, b.bottom, b.right, b.top):
+        return "after moving control points in place the box is %r, a fresh segment with the same control points has %r (stale answer)" % (
+            (a.left, a.bottom, a.right, a.top), (b.left, b.bottom, b.right, b.top))
+    return None
+
+
 def run_one(kind, inp):
     if kind == "seg":
-        return check_segment([tuple(p) for p in inp["pts"]])
+        pts = [tuple(p) for p in inp["pts"]]
+        return check_segment(pts) or check_after_edit(pts)
     return check_path([[tuple(p) for p in s] for s in inp["segs"]])
 
 
